@@ -337,7 +337,7 @@ func main() {
 	os.Args = append([]string{os.Args[0]}, rest...)
 	sort.Strings(nil)
 	driver.Main(driver.Engine{
-		Prop: focus, CoqImport: "Dials.Check." + focus + "Check", CoqRun: "run_cases",
+		Prop: focus, CoqImport: "Dials.Core.CbMgr Dials.Core.Monitor Dials.Core.System Dials.Core.Concrete Dials.Check.CoreCheck Dials.Check." + focus + "Check", CoqRun: "run_cases",
 		Rule: "a schedule is a list of atomic steps of the real goroutines (monitor, callback goroutine, API calls) driven through the verif hooks; " +
 			"non-trivial = contains an installed and a rejected update, or a registered callback with >=2 callback invocations after a store, " +
 			"or a call that returned a context error after being cancelled mid-flight, or an EnableVerification together with an update; " +
